@@ -84,6 +84,25 @@ def oversize_job(pc, extras):
     return res
 
 
+def environment_job():
+    """No device / a device whose serial number names no known flash size / another device id: nothing may reach a device and the run
+    must not end as a success."""
+    res = env.Result()
+    fw = _dfu.firmware(5, 3000, 0)
+    with env.scratch_dir('bbv-c19-') as d:
+        for what, kw, sched in [('device not found', {'present': False}, {}), ('unknown density letter', {}, {'density_letter': 'Z'}),
+                                ('unknown density letter', {}, {'density_letter': '2'}), ('another device id', {'device_id': '0483:df11'}, {})]:
+            res.evaluations += 1
+            res.nontrivial_count += 1
+            r = _dfu.run(16, fw, sched, d, **kw)
+            dev = r['device']
+            if dev.dnloads or bytes(dev.flash) != dev.initial:
+                res.fail('environment:touched', '%s: %d DNLOAD requests reached the device' % (what, dev.dnloads), {'kind': 'environment', 'what': what})
+            elif r['exit'][1] == 0 or 'done!' in r['out']:
+                res.fail('environment:exit', '%s: the run ends with %r' % (what, r['exit']), {'kind': 'environment', 'what': what})
+    return res
+
+
 def _dispatch(fn, *a):
     return fn(*a)
 
@@ -97,6 +116,7 @@ def run(tier):
         extras += [4096, 65536, pc * 1024, 3 * pc * 1024 + 5]
         for i in range(0, len(extras), 300):
             jobs.append((oversize_job, pc, extras[i:i + 300]))
+    jobs.append((environment_job,))
     rnd = random.Random(env.derive(chk.seed, PROP, 'doubles'))
     for pages in (1, 2, 3, 16):
         singles = [([(kind, k, status, beh)], 0 if (status + k) % 3 else 17 + k) for kind in ('erase', 'addr', 'write') for k in range(pages)
@@ -123,7 +143,7 @@ def run(tier):
                 '3 and 16 pages x every single injection point (erase k, set-address k, write k) x status 1..15 x device behaviour {spec: enters '
                 'dfuERROR and stalls, lenient: reports the status once and carries on} - complete, and again with the device found in dfuERROR at the start (same status as the later fault, or another); plus seed-drawn double injections with busy '
                 'schedules. oracle: done! not printed, exit status != 0, output names the failure. non-trivial = every injection that the run '
-                'reached / every oversize length; distinct by construction')
+                'reached / every oversize length; distinct by construction; plus: no device, unknown density letter in the serial number, another device id')
     chk.assumptions = ['vlib/dfusim.py device model', 'an escaping USB error (stalled transfer) counts as a non-zero exit naming the failure']
     return chk.finish()
 
@@ -132,7 +152,9 @@ def replay(path):
     with open(path) as f:
         body = json.load(f)
     c = body['case']
-    if c['kind'] == 'oversize':
+    if c['kind'] == 'environment':
+        r = environment_job()
+    elif c['kind'] == 'oversize':
         r = oversize_job(c['pages'], [c['extra']])
     else:
         r = inject_job(c['pages'], [([tuple(x) for x in c['inj']], c['sched_seed'], c.get('start_error'))])
